@@ -217,6 +217,22 @@ func (s *Sched) Acquire(lock any, kind string, a, b uint64, owner string) {
 		s.mu.Unlock()
 		return
 	}
+	if kind == "pgmut" {
+		// the mutex around COPY and lookups of one step: never contended in
+		// the code as it stands (one inserting goroutine per step), so a free
+		// lock is granted on the spot and adds no scheduling point; a change
+		// that makes several goroutines of a step insert at once parks the
+		// late comers here instead of blocking them on the real mutex, which
+		// the bubble could not wait out
+		s.mu.Lock()
+		if !s.held[lock] {
+			s.held[lock] = true
+			s.granted[lock]++
+			s.mu.Unlock()
+			return
+		}
+		s.mu.Unlock()
+	}
 	p := &Pending{Kind: "lock", LockKind: kind, Key: fmt.Sprintf("lock %s %d %d %s", kind, a, b, owner), Lock: lock, resume: make(chan any, 1)}
 	s.mu.Lock()
 	p.seq = s.nextSeq
